@@ -287,7 +287,11 @@ class FlushBook(object):
                 if it.completions != 1:
                     rt.violation("item-completions", {"item": inst, "completions": it.completions})
                 fl = rt.item_flush.get(inst)
-                if fl is None and not it.batch.is_cancelled():
+                if getattr(it, "hit", False):
+                    # answered when it was created: no flush has to account for it, and none may answer it again
+                    if fl is not None:
+                        rt.violation("item-answered-by-other-flush", {"item": inst, "batch": it.bid, "flush": fl})
+                elif fl is None and not it.batch.is_cancelled():
                     rt.violation("item-completed-without-its-flush", {"item": inst})
                 elif fl is not None and fl != it.bid:
                     rt.violation("item-answered-by-other-flush", {"item": inst, "batch": it.bid, "flush": fl})
